@@ -646,6 +646,23 @@ def apalache_inductive():
     return info
 
 
+def tlaps_proof():
+    """C05 / C03, unbounded: TLAPS machine-checks that the representation invariant (len <= Cap, keys
+    pairwise different) is inductive for ANY capacity, key universe and slot-sequence length
+    (spec/MapProof.tla: Init => Inv, Inv /\\ [Next]_slots => Inv', hence []Inv)."""
+    d = os.path.join(WORK, "tlaps")
+    shutil.rmtree(d, ignore_errors=True)
+    os.makedirs(d)
+    shutil.copy(os.path.join(SPEC, "MapProof.tla"), d)
+    t0 = time.time()
+    p = sh(["timeout", "900", "tlapm", "--threads", "8", "--cleanfp", "MapProof.tla"], cwd=d, timeout=1000, check=False)
+    m = re.search(r"All (\d+) obligations proved", p.stdout)
+    if not m:
+        raise ToolError("TLAPS does not prove spec/MapProof.tla:\n%s" % p.stdout[-1500:])
+    shutil.rmtree(d, ignore_errors=True)
+    return {"module": "spec/MapProof.tla", "obligations_proved": int(m.group(1)), "bound": "none (any capacity, any keys)", "wall_s": round(time.time() - t0, 1)}
+
+
 def apalache_disjoint(tier):
     """C13 / C18 at the design level beyond TLC's graphs: for ANY slot sequence with pairwise different
     keys and ANY request of pairwise different keys (sizes below), the transcribed one-pass stack
@@ -724,6 +741,7 @@ def run_check(pid, tier, seed):
         failures.extend(fl)
     if pid in ("C05", "C03"):
         summary["apalache_inductive_invariant"] = apalache_inductive()
+        summary["tlaps_inductive_invariant"] = tlaps_proof()
     if pid in ("C13", "C18"):
         summary["apalache_disjoint"] = apalache_disjoint(tier)
     gate = GATES.get(pid, {pid, "CRASH"}) | {"SPEC"}
@@ -771,6 +789,7 @@ def write_evidence(pid, tier, seed, summary, nviol, wall, others):
             "nostd_probe": summary.get("nostd_probe"), "sweep": summary.get("sweep"), "element_shapes_edges": summary.get("element_shapes"),
             "apalache_inductive_invariant": summary.get("apalache_inductive_invariant"),
             "apalache_disjoint": summary.get("apalache_disjoint"),
+            "tlaps_inductive_invariant": summary.get("tlaps_inductive_invariant"),
             "explanation": "TLC exhaustively explored the stated constants checking the invariants in every state and "
                            "emitted every (state, operation) transition; each emitted transition was replayed against the real crate "
                            "from a canonical construction and along random walks, in debug and release builds.",
@@ -796,6 +815,8 @@ def main():
             os.makedirs(WORK, exist_ok=True)
             build_all(["debug", "release", "asan"])
             for f in sorted(os.listdir(SPEC)):
+                if f == "MapProof.tla":      # a TLAPS proof module: parsed and checked by tlapm inside the C05 / C03 checks
+                    continue
                 if f in ("MapInd.tla", "MapDisj.tla"):      # typed for Apalache (EXTENDS Apalache): checked by its own type checker
                     p = sh(["timeout", "300", "apalache-mc", "typecheck", f], cwd=SPEC, timeout=400, check=False)
                     shutil.rmtree(os.path.join(SPEC, "_apalache-out"), ignore_errors=True)
